@@ -21,12 +21,12 @@ ASSUMPTIONS = [
 ]
 
 
-def queries(tier):
+def queries(tier, other_policy=False):
     qs = []
 
     def add(mode, ncls, checked, mask, prior, attempts, sat=None, timeout=1800, indirect=0, proj=0):
         hc = 16 if ncls <= 1 else 32 if ncls <= 3 else 64
-        nm = ('lookup_unregistered' if mode == 2 else 'lookup_formerly_registered' if mode == 3 else 'publish') + '_%s%s%s_n%d_ids%d_prior%d_a%d' % ('checked' if checked else 'fast', '_indirect' if indirect else '', '_projection' if proj else '', ncls, mask, prior, attempts)
+        nm = ('publish_after_other_policy' if mode == 4 else 'lookup_unregistered' if mode == 2 else 'lookup_formerly_registered' if mode == 3 else 'publish') + '_%s%s%s_n%d_ids%d_prior%d_a%d' % ('checked' if checked else 'fast', '_indirect' if indirect else '', '_projection' if proj else '', ncls, mask, prior, attempts)
         qs.append(Query(nm, 'c05_hash.cpp',
                         {'MODE': mode, 'NCLS': ncls, 'CHECKED': checked, 'NIDS_MASK': mask, 'PRIOR': prior, 'HASHCAP': hc,
                          'YOMM2_VERIF_HASH_ATTEMPTS': attempts, 'INDIRECT': indirect, 'PROJ': proj},
@@ -41,6 +41,12 @@ def queries(tier):
                         bounds={'classes': ncls, 'two_id_classes_mask': mask, 'attempts_per_table_size': attempts, 'table_sizes': 4,
                                 'max_buckets': hc, 'unwind': hc + 2}))
 
+    if other_policy:
+        # C14: policy Q (re-bound from P) is updated on the same ids first; P's update must be as good as alone and leave Q alone
+        add(4, 1, 1, 1, 1, 1, sat='cadical')
+        add(4, 2, 1, 0, 0, 1, sat='cadical')
+        add(4, 2, 0, 0, 1, 1, sat='cadical')
+        return qs
     add(1, 1, 1, 1, 1, 2)
     add(1, 2, 0, 2, 0, 1, sat='cadical')
     add(1, 2, 1, 3, 1, 1, sat='cadical')
